@@ -6,6 +6,8 @@ PROPERTY_MODULES = {
     "C08": ["combinators", "pjax_vmap"],
     "C14": ["seed", "pjax_vmap", "state"],
     "C19": ["state"],
+    "C11": ["adev"],
+    "C15": ["adev"],
     "C13": ["distributions", "pjax_vmap"],
     "C17": ["vi", "choicemap", "core_gfi"],
     "C10": ["smc", "core_gfi", "combinators", "lemmas"],
